@@ -254,3 +254,26 @@ func TestC07_Rapid(t *testing.T) {
 		}
 	})
 }
+
+// The type-safe manager's rules are those its operators apply to their second operand too (the only place most
+// callers ever meet them): every operator that converts, over the whole value pool, decided by C06's reference.
+func TestC07_EnumSafeManagerOperators(t *testing.T) {
+	rec := evid.New("C07", "TestC07_EnumSafeManagerOperators", "C06", "the implicit conversion of the second operand inside the operators of the type-safe manager follows the type-safe rules (only the numeric widenings; anything else is an error): operators Add, Equal, Less over every ordered pair of the value pool; oracle: the operator reference of C06; non-trivial = both operands non-null and of different types; distinct by (operator, values)")
+	rec.Exhaustive = true
+	rec.DupFree = true
+	defer finish(t, rec)
+	pool := valuePool()
+	rec.Bounds = fmt.Sprintf("%d x %d value pairs x {Add, Equal, Less}, type-safe manager", len(pool), len(pool))
+	parallelFor(len(pool), func(i int) {
+		for _, b := range pool {
+			for _, op := range []string{"Add", "Equal", "Less"} {
+				c := c06Case{op, pool[i], b, true}
+				rec.Case(jsonStr(c), pool[i].K != "null" && b.K != "null" && pool[i].K != b.K, func() interface{} { return c })
+				if f := checkC06(c); f != nil {
+					f.Sig = "safe-manager-operator:" + f.Sig
+					rec.Fail(f, c)
+				}
+			}
+		}
+	})
+}
